@@ -298,7 +298,8 @@ static Plan gen_c11(uint64_t seed, const std::string &tier) {
         if (how == 0 && i > 0) { o.cfg_mode = 1; cls += "D"; }                         // deleted
         else if (how == 1 && i > 0) { o.cfg_mode = 2; o.cfg_errno = r.chance(1, 2) ? 13 : 5; cls += "U"; } // unreadable
         else if (how == 2 && i > 0) { cls += "="; o.op = ""; }                           // unchanged
-        else { int c; o.cfg_mode = 0; o.cfg = c11_config(r, w, &c); cls += c == 11 ? 'B' : c == 12 ? 'H' : (char)('0' + c); }
+        else { int c; o.cfg_mode = 0; o.cfg = c11_config(r, w, &c); cls += c == 11 ? 'B' : c == 12 ? 'H' : (char)('0' + c);
+               if (r.chance(1, 8)) { static const int modes[] = {0666, 0664, 0600, 0646, 0444}; o.cfg_file_mode = modes[r.below(5)]; cls += 'M'; } }   // permission bits of the file as written this time
         if (!o.op.empty()) p.ops.push_back(o);
         ExecOp e; e.api = (int)r.below(2); e.path = "/bin/call" + std::to_string(i); size_t L = r.chance(1, 4) ? (size_t)r.range(250, 700) : 5; e.argv = {"a" + std::to_string(i), std::string(L, 'x')};
         e.success = false; e.err = 2; e.ret = -1;
@@ -342,5 +343,6 @@ static void describe_c11(const Plan &p, const RunResult &, J &line) {
     if (c.find('0') != std::string::npos) line.set("p_emptied", true);
     if (c.find('B') != std::string::npos) line.set("p_damaged_with_valid_options", true);
     if (c.find('H') != std::string::npos) line.set("p_header_lost", true);
+    if (c.find('M') != std::string::npos) line.set("p_file_mode_varies", true);
 }
 static Reg reg_c11({"C11", gen_c11, oracle_c11, abort_sched, describe_c11});
